@@ -291,7 +291,27 @@ func (u *universe) tsText(ts serix.TypeSettings) string {
 		id = "none"
 	}
 
-	return fmt.Sprintf("lp=%d/%t lex=%t/%t obj=%v rules=%s:%s", lp, lpSet, lex, lexSet, ts.ObjectType(), id, rulesText(ts.ArrayRules()))
+	// the read accessors of TypeSettings, against their definitions on the rules object
+	mn, mnSet := ts.MinLen()
+	mx, mxSet := ts.MaxLen()
+	imn, imx := ts.MinMaxLen()
+	var wmn, wmx uint
+	if r := ts.ArrayRules(); r != nil {
+		wmn, wmx = r.Min, r.Max
+	}
+	acc := "ok"
+	if mn != wmn || mnSet != (wmn != 0) || mx != wmx || mxSet != (wmx != 0) || imn != int(wmn) || imx != int(wmx) {
+		acc = fmt.Sprintf("MinLen=%d/%t MaxLen=%d/%t MinMaxLen=%d/%d", mn, mnSet, mx, mxSet, imn, imx)
+	}
+	size := -1
+	if lpSet {
+		if n, err := serix.LengthPrefixTypeSize(lp); err == nil {
+			size = n
+		}
+	}
+	key, keySet := ts.FieldKey()
+
+	return fmt.Sprintf("lp=%d/%t/%d lex=%t/%t obj=%v key=%s/%t descr=%q accessors=%s rules=%s:%s", lp, lpSet, size, lex, lexSet, ts.ObjectType(), key, keySet, ts.Description(), acc, id, rulesText(ts.ArrayRules()))
 }
 
 // snapshot renders everything the user configured, one item per line ("name: content").
@@ -451,6 +471,12 @@ func (x *sess) exec(op string) string {
 			if err == nil {
 				x.u = build(seed, nil)
 				x.base = x.u.snapshot()
+				for _, l := range x.base {
+					if strings.Contains(l, "accessors=") && !strings.Contains(l, "accessors=ok") {
+						x.r.Fail("accessors", "MinLen / MaxLen / MinMaxLen disagree with the bounds of the rules object: "+l,
+							map[string]string{"oracle": "accessors", "trigger": "type-settings-accessors"})
+					}
+				}
 				x.typeLine = op
 				x.calls = 0
 				x.mapCalls = map[int]bool{}
